@@ -28,7 +28,7 @@ func init() {
 			return 32000
 		},
 		Run:      runC12,
-		Required: []string{"solver.std_forward", "solver.std_recursive", "solver.fast_forward", "solver.fast_recursive", "solver.fast_relax", "nets.with_bias_that_matters", "nets.via_genesis", "nets.depth_ge_3"},
+		Required: []string{"solver.std_forward", "solver.std_recursive", "solver.fast_forward", "solver.fast_recursive", "solver.fast_relax", "nets.with_bias_that_matters", "nets.via_genesis", "nets.depth_ge_3", "nets.deep_chain"},
 	})
 }
 
@@ -45,6 +45,12 @@ func runC12(c *Ctx, idx int) {
 			// the smooth subset keeps more cases away from discontinuities
 			o.acts = []neatmath.NodeActivationType{neatmath.SigmoidSteepenedActivation, neatmath.TanhActivation, neatmath.LinearActivation,
 				neatmath.SigmoidPlainActivation, neatmath.GaussianActivation, neatmath.SineActivation, neatmath.LinearClippedActivation}
+		}
+		if i%50 == 7 {
+			// a deep network: 33-45 hidden neurons in a chain with a few skip links (depth beyond any small built-in limit)
+			o = netGenOpts{maxIn: 2, maxBias: 1, maxHid: 45, minHid: 33, maxOut: 2, edgeProb: 0.02, weightScale: 1.0, reachable: true, chain: true,
+				acts: []neatmath.NodeActivationType{neatmath.TanhActivation, neatmath.LinearClippedActivation, neatmath.SigmoidSteepenedActivation}}
+			c.Count("nets.deep_chain", 1)
 		}
 		if r.Intn(4) == 0 {
 			o.flagForward = pick(r, 0.2, 1.0) // forward links which merely carry the recurrent label: still a feed-forward network
@@ -290,6 +296,19 @@ func c12Sequence(c *Ctx, s *netSpec, build func() *network.Network, steps int, d
 		}
 		flush := r.Intn(2) == 0
 		mode := r.Intn(3)
+		if s.NBias > 0 && r.Intn(4) == 0 {
+			// the caller may load the bias sensors explicitly (full vector); a later load of the plain input vector means bias = 1 again
+			full := append(append([]float64{}, randInputs(r, s.NIn, 2)...), make([]float64, s.NBias)...)
+			for i := s.NIn; i < len(full); i++ {
+				full[i] = 0.3
+			}
+			for _, sv := range []network.Solver{fastS, std} {
+				if sv.LoadSensors(full) == nil {
+					_, _ = sv.ForwardSteps(1)
+				}
+			}
+			c.Count("solver.sequence_explicit_bias_loaded_before", 1)
+		}
 		for _, inst := range []struct {
 			name   string
 			solver network.Solver
